@@ -18,6 +18,8 @@ import (
 
 	hclog "github.com/hashicorp/go-hclog"
 	"github.com/hashicorp/go-plugin/runner"
+	"github.com/hashicorp/yamux"
+	"google.golang.org/grpc"
 )
 
 
@@ -270,6 +272,18 @@ func mDial(network, address string) (net.Conn, error) {
 
 var _ = syscall.Signal(0)
 
+// In this run the reattached plugin does not answer the graceful-shutdown attempt: the connection for the
+// protocol client cannot be established, so Kill takes its force path (the graceful path is C04's subject).
+//verif:model github.com/hashicorp/yamux.Client
+func mYamuxClient(conn io.ReadWriteCloser, cfg *yamux.Config) (*yamux.Session, error) {
+	return nil, errors.New("session shutdown")
+}
+
+//verif:model google.golang.org/grpc.Dial
+func mGrpcDial(target string, opts ...grpc.DialOption) (*grpc.ClientConn, error) {
+	return nil, errors.New("connection refused")
+}
+
 func harnessC15() {
 	listening = vChoice(2) == 1
 	thePlugin.alive = listening
@@ -301,6 +315,21 @@ func harnessC15() {
 	if !listening {
 		vCover("nothing-listening")
 		vAssert(errors.Is(err, ErrProcessNotFound), "C15: reattach with nothing listening fails with the process-not-found error")
+		vDone()
+	}
+	want0 := proto
+	if want0 == "" {
+		want0 = ProtocolNetRPC
+	}
+	allowedOK := false
+	for _, a := range c.config.AllowedProtocols {
+		if a == want0 {
+			allowedOK = true
+		}
+	}
+	if !allowedOK {
+		vCover("refused-protocol")
+		vAssert(err != nil, "C14: the client never speaks a protocol outside its allowed list (reattach)")
 		vDone()
 	}
 	vCover("reattached")
